@@ -275,16 +275,23 @@ impl Uplinks {
                             {
                                 *queued = false;
                                 let synced = std::mem::replace(send_synced, false);
-                                backpressure.prepare_write(&mut buffer);
-                                let action = if synced {
-                                    WriteAction::ValueSynced(true)
+                                let had_data = backpressure.has_data();
+                                let maybe_action = if synced {
+                                    Some(WriteAction::ValueSynced(had_data))
+                                } else if had_data {
+                                    Some(WriteAction::Event)
                                 } else {
-                                    WriteAction::Event
+                                    None
                                 };
-                                let lane_name =
-                                    registry.name_for(lane_id).expect(UNREGISTERED_LANE);
-                                sender.update_lane(lane_name);
-                                break Some(WriteTask::new(sender, buffer, action));
+                                if let Some(action) = maybe_action {
+                                    if had_data {
+                                        backpressure.prepare_write(&mut buffer);
+                                    }
+                                    let lane_name =
+                                        registry.name_for(lane_id).expect(UNREGISTERED_LANE);
+                                    sender.update_lane(lane_name);
+                                    break Some(WriteTask::new(sender, buffer, action));
+                                }
                             }
                         }
                         UplinkKind::Supply => {
@@ -326,6 +333,10 @@ impl Uplinks {
                             }) = map_uplinks.get_mut(&lane_id)
                             {
                                 let synced = std::mem::replace(send_synced, false);
+                                if !synced && !backpressure.has_data() {
+                                    *queued = false;
+                                    continue;
+                                }
                                 let write = if synced {
                                     *queued = false;
                                     let lane_name =
